@@ -164,7 +164,7 @@ pub fn build() -> Property {
         assumptions: vec!["every packet's RDH0 passes the pre-check and carries a known system id (a derived file starts with an arbitrary packet of the input)".into()],
         phases: vec![Phase {
             name: "cli_filter_write",
-            kind: PhaseKind::Gen { cases: (320, 4000), tape_len: 6000, f: Box::new(case) },
+            kind: PhaseKind::Gen { cases: (1600, 12000), tape_len: 6000, f: Box::new(case) },
             threads: 16,
         }],
     }
